@@ -1,7 +1,7 @@
 #!/usr/bin/env python3
 """Confirm sub-agent mutations and run the checks against them (development tool).
 
-usage: seedrun.py confirm <Cxx> <n>      apply /tmp/wt-Cxx/_out/patch<n>.diff to a scratch worktree of
+usage: seedrun.py confirm <Cxx> <n>      apply /tmp/wt-Cxx/_out/patch<n>.diff (or seeded/Cxx-n/patch.diff) to a scratch worktree of
                                           /repo HEAD, run the demo with and without it
        seedrun.py tests   <Cxx> <n>      run the repository test-suite on the patched scratch worktree
        seedrun.py check   <Cxx> <n> [props...] [--tier T]   run ./check <prop> with VERIF_REPO=<scratch>
@@ -30,6 +30,8 @@ def scratch(prop, n, tag):
     r = sh(f"git -C {REPO} worktree add -q --detach {d} HEAD")
     assert r.returncode == 0, r.stderr
     patch = f"/tmp/wt-{prop}/_out/patch{n}.diff"
+    if not os.path.exists(patch):  # the sub-agent's scratch area is gone: use the kept copy
+        patch = f"/verif/seeded/{prop}-{n}/patch.diff"
     r = sh(f"git -C {d} apply {patch}")
     how = "clean"
     if r.returncode != 0:
@@ -154,6 +156,8 @@ def main():
             record({"cmd": cmd, "prop": prop, "n": n, "applied": False, "note": how})
             return
         demo = f"/tmp/wt-{prop}/_out/demo{n}.py"
+        if not os.path.exists(demo):
+            demo = f"/verif/seeded/{prop}-{n}/demo.py"
         w = subprocess.run(f"cd {d} && PYTHONPATH={d} timeout 600 /venv/bin/python {demo}", shell=True, capture_output=True, text=True, env=ENV)
         wo = subprocess.run(f"cd {REPO} && PYTHONPATH={REPO} timeout 600 /venv/bin/python {demo}", shell=True, capture_output=True, text=True, env=ENV)
         record({"cmd": cmd, "prop": prop, "n": n, "applied": how, "demo_with_patch_rc": w.returncode, "demo_without_rc": wo.returncode,
@@ -165,7 +169,8 @@ def main():
             record({"cmd": cmd, "prop": prop, "n": n, "applied": False, "note": how})
             return
         t0 = time.time()
-        sel = None if "--full" in rest else select_tests(f"/tmp/wt-{prop}/_out/patch{n}.diff")
+        pfile = f"/tmp/wt-{prop}/_out/patch{n}.diff"
+        sel = None if "--full" in rest else select_tests(pfile if os.path.exists(pfile) else f"/verif/seeded/{prop}-{n}/patch.diff")
         if sel is None:
             target, mode = "tests", "full suite"
         else:
